@@ -286,6 +286,14 @@ func (s *rsession) apply(x *rimpl, op *rop) (h interface{}, out *outv) {
 	case hMsg:
 		m := x.res[op.r].(protoreflect.Message)
 		switch op.code {
+		case "rstop":
+			// Range must return as soon as the callback returns false: count the callbacks made
+			n := 0
+			m.Range(func(fd protoreflect.FieldDescriptor, v protoreflect.Value) bool {
+				n++
+				return false
+			})
+			return nil, &outv{k: '#', fidx: n}
 		case "range":
 			o := &outv{k: 'R'}
 			m.Range(func(fd protoreflect.FieldDescriptor, v protoreflect.Value) bool {
@@ -386,6 +394,13 @@ func (s *rsession) apply(x *rimpl, op *rop) (h interface{}, out *outv) {
 		case "mnewv":
 			o := x.elemOut(fd.MapValue(), mp.NewValue())
 			return o.handle(), o
+		case "mrstop":
+			n := 0
+			mp.Range(func(k protoreflect.MapKey, v protoreflect.Value) bool {
+				n++
+				return false
+			})
+			return nil, &outv{k: '#', fidx: n}
 		case "mrange":
 			o := &outv{k: 'Q', fd: fd}
 			mp.Range(func(k protoreflect.MapKey, v protoreflect.Value) bool {
